@@ -16,7 +16,7 @@
     exercised by the correspondence (format!("{}", v) of pool and random values fed back in). *)
 From Coq Require Import ZArith NArith Reals List Bool.
 From Flocq Require Import Core.Core IEEE754.BinarySingleNaN.
-From SC Require Import Base.Res Base.F64 Base.RustInt Base.Dec Base.Num Base.Oracle Lang.Lexer Lang.Literal Proofs.LiteralFacts.
+From SC Require Import Base.Res Base.F64 Base.RustInt Base.Dec Base.Num Base.Oracle Lang.Lexer Lang.Literal Proofs.LiteralFacts Proofs.ShowFacts.
 Import ListNotations.
 
 Theorem C19_f64_literal_text :
@@ -57,6 +57,17 @@ Proof.
   split; [reflexivity|]. split; [apply N2Z.is_nonneg|exact E].
 Qed.
 Print Assumptions C19_i64_literal.
+
+(** second clause, eval_i64: the decimal text of any non-negative i64 (what Display prints; a negative result is the prefix
+    minus applied to such a text) is read back as exactly that value; the text of 2^63 is rejected *)
+Theorem C19_i64_text_roundtrip :
+  (forall z, (0 <= z <= 2 ^ 63 - 1)%Z -> parse_i64 (show_N (Z.to_N z)) = Some z) /\
+  show_N 9223372036854775807 = [57; 50; 50; 51; 51; 55; 50; 48; 51; 54; 56; 53; 52; 55; 55; 53; 56; 48; 55]%N /\
+  show_N 0 = [48]%N /\ parse_i64 (show_N 9223372036854775808) = None.
+Proof.
+  split; [exact parse_show_i64|]. repeat split; vm_compute; reflexivity.
+Qed.
+Print Assumptions C19_i64_text_roundtrip.
 
 Theorem C19_number_literal :
   forall t im, conv_num (LNum t im) = if has_point t then option_map Flt (parse_f64 t) else option_map Int (parse_i64 t).
